@@ -133,6 +133,20 @@ def replay_ops(cex):
                     bad[f"{form} {nm}"] = "wrong values"
             except Exception as e:
                 bad[f"{form} {nm}"] = repr(e)[:120]
+    # comparisons on images with equal voxels (ties): integer-valued images, an image compared with itself
+    ti = (np.arange(8).reshape(2, 2, 2) % 3).astype(np.float32)
+    tj = ((np.arange(8).reshape(2, 2, 2) + 1) % 3).astype(np.float32)
+    pi_, pj_ = ImageProvider(lambda scale: ti), ImageProvider(lambda scale: tj)
+    ci_, cj_ = ImageConverter(lambda img, scale: ti + 0 * img), ImageConverter(lambda img, scale: tj + 0 * img)
+    for nm in ("==", "!=", "<", "<=", ">", ">="):
+        op = ops[nm]
+        for form, got in (("provider", lambda: op(pi_, pj_)(1.0)), ("provider-self", lambda: op(pi_, pi_)(1.0)), ("converter", lambda: op(ci_, cj_)(a, 1.0))):
+            want = op(ti, tj if form != "provider-self" else ti)
+            try:
+                if not np.array_equal(np.asarray(got(), dtype=np.float64), np.asarray(want, dtype=np.float64)):
+                    bad[f"ties: {form} {nm}"] = "wrong values"
+            except Exception as e:
+                bad[f"ties: {form} {nm}"] = repr(e)[:120]
     for n in (5, 6):
         g = from_gaussian(shape=(n * 0.5 + 0.15, n * 0.5 - 0.15, n * 0.5), sigma=0.8, shift=(0.25, 0.0, -0.5))(0.5)
         zz, yy, xx = np.indices((n,) * 3)
